@@ -33,6 +33,8 @@ func (e *Exec) intInput(name string, w int, signed bool) *Term {
 		e.assertPC(Lt(t, KBig(pow2[w])))
 	}
 	e.inputs = append(e.inputs, inputRec{Kind: kind, Name: name, t: t, W: w})
+	r := typeRange(w, signed)
+	e.vbounds[t] = r
 	return t
 }
 
